@@ -71,6 +71,7 @@ def merge(results):
             agg['samples'].append(dict(r['samples'][0], instance=r['instance']))
         for k, v in r.get('classes', {}).items(): agg['classes'][k] += v
         agg['fns'].update(r.get('fns', []))
+        agg.setdefault('timing', []).append((round(r.get('wall_s', 0), 1), r.get('instance'), st['paths'], 'TRUNCATED' if ('deadline' in st['by_status'] or 'truncated' in st['by_status']) else ''))
     agg['truncated'] = agg['by_status'].get('deadline', 0) + agg['by_status'].get('truncated', 0)
     return agg
 
@@ -148,3 +149,4 @@ def report_issues(agg, log):
     for m in agg['mismatches'][:5]:
         log('ENCODING MISMATCH (symbolic vs native): %s' % json.dumps(m, ensure_ascii=False, default=str)[:600])
     if agg['truncated']: log('exploration truncated by the time budget in %d instances' % agg['truncated'])
+    log('slowest instances: %s' % sorted(agg.get('timing', []), reverse=True)[:4])
